@@ -27,8 +27,13 @@ fn s_edits(t: &mut Tape, ctx: &mut Ctx) -> Result<(), Failure> {
     ctx.evals(1);
     let got = match accepted(&e.text) {
         Ok(r) => r,
+        Err(p) if verdict.is_ok() => {
+            // a well-typed program that makes the front end panic is not accepted
+            return Err(Failure::new(format!("panic:{}", crate::run::panic_site(&p)), format!("the independent checker finds this program well-typed but the front end panics: {p}\n--- program (edit {}) ---\n{}", e.kind.name(), truncate(&e.text, 3000))).with(json!({"program": e.text, "edit": e.kind.name()})));
+        }
         Err(_) => {
-            ctx.exclude("panic (reported by C06)");
+            // ill-typed and panicking instead of rejecting: totality is C06's statement
+            ctx.exclude("ill-typed program panics (reported by C06)");
             return Ok(());
         }
     };
@@ -73,9 +78,8 @@ fn s_family(t: &mut Tape, ctx: &mut Ctx) -> Result<(), Failure> {
         Ok(Err(msg)) => {
             return Err(Failure::new("c04:well-typed-rejected:generated", format!("a well-typed generated program is rejected: {}\n{}", pipe::last_line(&msg), truncate(&text, 3000))).with(json!({"program": text, "front_end": msg})));
         }
-        Err(_) => {
-            ctx.exclude("panic (reported by C06)");
-            return Ok(());
+        Err(p) => {
+            return Err(Failure::new(format!("panic:{}", crate::run::panic_site(&p)), format!("a well-typed generated program makes the front end panic: {p}\n{}", truncate(&text, 3000))).with(json!({"program": text})));
         }
     }
     ctx.label("family-accepted");
@@ -96,7 +100,7 @@ pub fn streams() -> Vec<Stream> {
 pub fn def() -> PropertyDef {
     PropertyDef {
         id: "C04",
-        rule: "stream family: generated well-typed programs (by construction, confirmed by the independent checker) under varied layout must be accepted. stream edits: one single typed edit (42 kinds: retype let / parameter / result / arm binder / alias / call type argument with a layout-equal, same-width or unrelated type; call, tuple, array, pattern arity +-1; array size +-1; list bound x2, /2 (down to 1), +1, 2n-1; a second read of a template parameter at another type; list literal filled up to a power of two; literal 2^N; binary / hex literal with one digit more or fewer; undefined / other variable; swapped statements; variable leaked out of its block; undefined function / alias / jet; reserved jets; name twice in a pattern; duplicate function; two mains / no main / main with parameter or result; witness name reused; witness inside a function; item moved below its uses; wrong fold / loop function; incompatible match arms; duplicate parameter name; final expression dropped; literal of another kind; swapped arguments; variable re-bound in a block around a use; inner name also bound in the enclosing block) applied at a tape-chosen site of a generated program; oracle = independent checker `tycheck` (written from the book and the rule list of the property), acceptance by TemplateProgram::new must equal its verdict in both directions. evaluations = acceptance decisions compared. Non-trivial = edited program (distinct by digest of the text) / family program with >= 4 expression forms.",
+        rule: "stream family: generated well-typed programs (by construction, confirmed by the independent checker) under varied layout must be accepted. stream edits: one single typed edit (43 kinds: retype let / parameter / result / arm binder / alias / call type argument with a layout-equal, same-width or unrelated type; call, tuple, array, pattern arity +-1; array size +-1; list bound x2, /2 (down to 1), +1, 2n-1; a second read of a template parameter at another type; a function appended after main (plain, reading a witness, ill-typed); list literal filled up to a power of two; literal 2^N; binary / hex literal with one digit more or fewer; undefined / other variable; swapped statements; variable leaked out of its block; undefined function / alias / jet; reserved jets; name twice in a pattern; duplicate function; two mains / no main / main with parameter or result; witness name reused; witness inside a function; item moved below its uses; wrong fold / loop function; incompatible match arms; duplicate parameter name; final expression dropped; literal of another kind; swapped arguments; variable re-bound in a block around a use; inner name also bound in the enclosing block) applied at a tape-chosen site of a generated program; oracle = independent checker `tycheck` (written from the book and the rule list of the property), acceptance by TemplateProgram::new must equal its verdict in both directions. evaluations = acceptance decisions compared. Non-trivial = edited program (distinct by digest of the text) / family program with >= 4 expression forms.",
         assumptions: &["edits whose status the documentation leaves open (duplicate alias definitions, a parameter used at two types) are not generated", "the checker's reading of the book is the reference; it was validated on the unchanged tree and every disagreement was examined by hand (DESIGN appendix B)"],
         streams,
         health: &[("edits", "edit-well-typed-accepted", 100), ("edits", "edit-ill-typed-rejected", 200)],
